@@ -38,6 +38,7 @@ def cmd_check(pid, args):
         if f is not None:
             known_hits.setdefault(f["id"], (f, 0))
             known_hits[f["id"]] = (f, known_hits[f["id"]][1] + 1)
+            r["status"] = "known-finding"
         else:
             new_viol.append(r)
     extra = {}
